@@ -5,7 +5,8 @@ two restriction loops, in the vocabulary of the specification.
 import OpenFGAVerif.Proofs.ValidationSteps
 
 namespace OpenFGAVerif.Proofs.Validation
-open OpenFGAVerif.Model.TupleStr OpenFGAVerif.Spec.TupleStr OpenFGAVerif.Proofs.TupleStr
+open OpenFGAVerif.Model.TupleStr (Bytes cColon cHash cAt cStar cSpace wildcard runes isControl indexByte lastIndexByte splitObject buildObject getType splitObjectRelation getRelation toObjectRelationString getObjectRelationAsString toUserParts isValidObject isValidRelation isValidUserID isValidUserset isValidUser isObjectRelation isTypedWildcard isWildcard typedPublicWildcard)
+open OpenFGAVerif.Spec.TupleStr OpenFGAVerif.Proofs.TupleStr
 open OpenFGAVerif.Model.Validation OpenFGAVerif.Spec.Allowed
 open OpenFGAVerif.Model.Condition (Ctx Std TypeRef PVal TVal getLast decode convert asInterface Res castLoop castContext)
 
